@@ -46,6 +46,10 @@ R = {
    text="The Complete invariant of RangeStmt.tla (every true statement in the limits yields a non-negative, correctly shaped difference and a descriptor that proves and reports the statement) is checked by TLC on the box; emitted statements and a dense window around m = bound, factors 1..8, both signs, both splitters, several statements per proof, random differences up to 2^256, every squares-table entry and every n < 2^16 (2^20) through SumFourSquares are executed on the real prover and verifier.",
    note="Documented limit of the squares table taken from the code (scaled value <= table limit); 1024-bit keys.",
    tech="TLA+ transcription checked by TLC on a finite box; generated statements replayed through the real prover and verifier"),
+ "C14": dict(engine="Keyshare.tla", design="5/C14, 13",
+   text="TLC checks Bound, Complete and AlteredNeverReleased on Keyshare.tla, a message-level model of the user/keyshare-server exchange over every builder list (D, U, D+nonrev, D+range; two participating keys and one not), both flags, default/other context and every single alteration of the second message's challenge inputs; every emitted case (thorough: a seeded sample) is run through the real KeyshareUserCommitmentRequest / NewKeyshareCommitments / KeyshareUserResponseRequest / KeyshareResponse with real credentials: altered inputs must produce an error and no response, honest runs equal challenges and a joint proof list that verifies under the keyshare labelling.",
+   note="Commitment hash injective in the model; lists of <= 2 (3) builders; only 1024-bit keys; legacy protocol generation not exercised; honest nonrev proofs matching known finding D10 are discarded and counted.",
+   tech="TLA+ protocol model + TLC exhaustive model checking; generated honest and fault cases replayed on the real protocol functions"),
  "C10": dict(engine="RevAuth.tla", design="5/C10, 13",
    text="TLC explores every update message an adversary can assemble from a genuine one by up to 2 mutations plus JSON/CBOR transport in RevAuth.tla and checks that the transcribed acceptance predicates imply authenticity; every single-mutation message (thorough: plus a seeded sample of double mutations) is materialised byte for byte and fed to Update.Verify, Witness.Update, EventList.Verify, Update.Prepend and Hash.Equal in memory and after real JSON/CBOR round trips.",
    note="Hash injective and signatures unforgeable in the model; chains of 3 events, 2 chains under one key; toy moduli; the unserialised SignedAccumulator.Accumulator memo is clear on received messages.",
